@@ -208,21 +208,22 @@ func (g *Gen) fieldComp(st types.Type, idx int) (comp string, fsort string, ftyp
 
 func (g *Gen) elemComp(elem types.Type) (comp string, esort string) {
 	esort = g.d.sortOf(elem)
-	comp = "E$" + sanitize(esort)
+	// one component per Go element type: backing arrays of different element types never alias
+	comp = "E$" + compTypeName(elem)
 	g.compDecl(comp, "(Array Int (Array Int "+esort+"))")
 	return
 }
 
 func (g *Gen) cellComp(elem types.Type) (comp string, esort string) {
 	esort = g.d.sortOf(elem)
-	comp = "C$" + sanitize(esort)
+	comp = "C$" + compTypeName(elem)
 	g.compDecl(comp, "(Array Int "+esort+")")
 	return
 }
 
 func (g *Gen) mapComps(m *types.Map) (val, has, ln string, ksort, vsort string) {
 	ksort, vsort = g.d.sortOf(m.Key()), g.d.sortOf(m.Elem())
-	base := sanitize(ksort) + "$" + sanitize(vsort)
+	base := compTypeName(m.Key()) + "$" + compTypeName(m.Elem())
 	val, has, ln = "MV$"+base, "MH$"+base, "ML$"+base
 	g.compDecl(val, "(Array Int (Array "+ksort+" "+vsort+"))")
 	g.compDecl(has, "(Array Int (Array "+ksort+" Bool))")
@@ -491,4 +492,14 @@ func not(x string) string {
 		return "true"
 	}
 	return "(not " + x + ")"
+}
+
+// compTypeName names the heap component of values of Go type t. Basic types are identified by their sort
+// (byte/uint8, rune/int32 are identical types; named basic types may be converted element-wise only by copying).
+func compTypeName(t types.Type) string {
+	t = types.Unalias(t)
+	if b, ok := t.(*types.Basic); ok {
+		return fmt.Sprintf("b%d", b.Kind()) // byte and uint8, rune and int32 share a kind
+	}
+	return typeName(t)
 }
